@@ -203,6 +203,18 @@ def run(ctx):
         ctx.violation('replay:clip:norm', f'norm {np.linalg.norm(flat)} exceeds the bound for {cfg}', replay={'cfg': cfg})
       elif check_inputs_alive([tree], [snap]):
         ctx.violation('replay:clip:inputs-harmed', f'{check_inputs_alive([tree], [snap])} for {cfg}', replay={'cfg': cfg})
+  # the bound 0 (nothing may pass) and the zero tree (norm 0, already inside every bound): zeros, never NaN
+  for (vals, bound) in (([0.0, 0.0, 0.0], 0.0), ([3.0, 4.0], 0.0), ([0.0, 0.0], 1.0), ([0.0], 1e-30), ([1e-20, 0.0], 0.0)):
+    for kind in ('jax', 'np'):
+      mk = jnp.array if kind == 'jax' else np.array
+      tree = {'x': mk(np.array(vals[:1], np.float32)), 'y': mk(np.array(vals[1:], np.float32))}
+      out = tree_util.tree_clip_by_global_norm(tree, bound)
+      flat = np.concatenate([np.asarray(x, np.float64).reshape(-1) for x in jax.tree_util.tree_leaves(out)])
+      clip_n += 1
+      cfg = dict(fn='tree_clip_by_global_norm', v=vals, max_norm=bound, leaves=kind)
+      ctx.case(key=('clip-zero', repr(vals), bound, kind), nontrivial=True)
+      if np.any(np.isnan(flat)) or np.any(flat != 0):
+        ctx.violation('clip-zero-norm-zero-bound-NaN' if (bound == 0 and not any(vals)) else 'replay:clip:zero', f'clipped tree {flat.tolist()} instead of zeros for {cfg}', replay={'cfg': cfg})
   # complex leaves: |3+4j| = 5; the global norm uses the modulus of every entry
   for (vals, bound) in (([3 + 4j, 0j], 1.0), ([3 + 4j, 0j], 10.0), ([0.6 + 0.8j, 0j, 0j], 0.5), ([1j, 1 + 0j, 1j, -1 + 0j], 1.0), ([3 + 4j, 12 + 0j], 6.5)):
     for kind in ('jax', 'np'):
